@@ -147,6 +147,31 @@ def check_custom(s, how, style, handled_sql, handled_dbml, schedule, case):
                 if got != expect(what, name, el):
                     viols.append(Viol(f'c16:custom:no-tables:{name}.{what}', f'once the database holds no tables {name}.{what} is {got[:80]!r}, expected {expect(what, name, el)!r} from the configured renderer', case))
         db = get_db(s, how, style, sql_renderer=R_sql, dbml_renderer=R_dbml)
+    # an element the database refuses to take (its name is taken) stays detached: default renderers
+    spare = get_db(s, how, style)
+    cands = list(spare.enums) + list(spare.table_groups) + list(spare.tables) + ([spare.project] if spare.project is not None else [])
+    for el in cands:
+        name = type(el).__name__
+        try:
+            spare.delete(el)
+            texts = {w: getattr(el, w) for w in ('sql', 'dbml') if has(el, w)}
+        except Exception:  # noqa
+            continue
+        try:
+            db.add(el)
+        except Exception:  # noqa
+            pass
+        else:
+            db.delete(el)       # accepted after all (not this property's business): take it out again
+        for w, want in texts.items():
+            try:
+                got = getattr(el, w)
+            except Exception as e:  # noqa
+                viols.append(Viol(f'c16:rejected:raise:{name}.{w}', f'{name}.{w} of an element the database refused to add raised {type(e).__name__}: {e}', case))
+                continue
+            if got != want:
+                viols.append(Viol(f'c16:rejected:{name}.{w}', f'{name}.{w} of an element the database refused to add is {got[:80]!r}, '
+                                  f'its rendering as a detached element was {want[:80]!r}', case))
     # detached elements fall back to the default renderers
     twin = get_db(s, how, style)
     pairs = list(zip(db.enums, twin.enums)) + list(zip(db.table_groups, twin.table_groups)) + list(zip(db.refs, twin.refs))
